@@ -26,7 +26,7 @@ def gen_case(rng, ver, tier, force=None):
     k = force.get("k", rng.randint(1, 4 if tier != "quick" else 3))
     m = force.get("m", rng.randint(0, 2))
     if ver == "v1":
-        mode = force.get("mode", rng.choice(["dialog", "dialog", "general", "passthrough", "single_call"]))
+        mode = force.get("mode", rng.choice(["dialog", "dialog", "general", "passthrough", "single_call", "multi_step"]))
         exc = force.get("exc", rng.random() < 0.25)
     else:
         mode, exc = "v2", False
@@ -39,7 +39,7 @@ def gen_case(rng, ver, tier, force=None):
     V = []
     kinds = []
     for t in range(turns):
-        kind = "fixed" if (mode in ("dialog", "single_call") and rng.random() < 0.25) else "llm"
+        kind = "fixed" if (mode in ("dialog", "single_call", "multi_step") and rng.random() < 0.25) else "llm"
         kinds.append(kind)
         for i in range(k):
             # (a rewrite would also mask the keyword that selects the predefined-message intent)
@@ -210,7 +210,7 @@ def judge(case, records, app):
                 rewritten_tokens.append(orig_token)
             # (only when every call uses default options: per-call options change the history-cache key, the
             #  history is then rebuilt from the caller's own raw messages, which legitimately carry earlier originals)
-            if mode in ("dialog", "general", "single_call") and not case.get("opts") and case.get("api", "messages") == "messages":
+            if mode in ("dialog", "general", "single_call", "multi_step") and not case.get("opts") and case.get("api", "messages") == "messages":
                 for tok in rewritten_tokens:
                     if tok == orig_token:
                         continue
